@@ -285,6 +285,15 @@ def pair(prefix, k):
     return _produce("pair", "%s|%s" % (prefix, k))
 
 
+@m.memento_function(version="dr1")
+def drain(prefix, k, xs, opts=None):
+    """Uses up its list / dictionary arguments while it works (they are the call's own copies)."""
+    REC.hit("drain", prefix, k)
+    first = xs.pop(0)
+    scale = (opts or {}).pop("scale", 1)
+    return [first * scale + k, len(xs), sorted(opts or {})]
+
+
 @m.memento_function(version="nb1")
 def window(prefix, k):
     """An element whose body evaluates a batch of its own (three calls of pair: a rolling window)."""
